@@ -42,22 +42,23 @@ fn ref_tick(pre: &RefState, set: &[(Cand, Program)]) -> RefTick {
     order.sort_by_key(|i| cand_key(&set[*i].0));
     let mut accepted = Vec::new();
     let mut blocked_by: Vec<Vec<u32>> = Vec::new();
-    let mut acc_items: Vec<(usize, Vec<rules::FpItem>, u8)> = Vec::new(); // (entry idx, items, scope)
+    let mut acc_items: Vec<(usize, Vec<rules::FpItem>, u8, u8)> = Vec::new(); // (entry idx, items, scope, instance)
     let mut ops = Vec::new();
     for (entry, &i) in order.iter().enumerate() {
         let (c, p) = &set[i];
         let items = p.honest_items(Scope { w: c.1 });
         let blockers: Vec<u32> = acc_items
             .iter()
-            .filter(|(_, it, sc)| ref_conflict(&items, c.2, it, *sc))
-            .map(|(e, _, _)| *e as u32)
+            // conflicts exist only within one instance (footprints are instance-scoped)
+            .filter(|(_, it, sc, w)| *w == c.1 && ref_conflict(&items, c.2, it, *sc))
+            .map(|(e, _, _, _)| *e as u32)
             .collect();
         if blockers.is_empty() {
             accepted.push(true);
             if let Some(e) = ref_effects(p, pre, c.1) {
                 ops.extend(e);
             }
-            acc_items.push((entry, items, c.2));
+            acc_items.push((entry, items, c.2, c.1));
         } else {
             accepted.push(false);
         }
